@@ -78,7 +78,8 @@ struct K {
     void reg() { n_constructed++; if (!g_live.insert(this).second) vs_violation("VALUE-LIFETIME", "a key object was constructed at %p on top of a live one", (void*)this); }
     K(int kk, int u) : k(kk), uid(u) { reg(); }
     K(const K& o) : k(o.k), uid(o.uid) { reg(); }
-    K(K&& o) : k(o.k), uid(o.uid) { reg(); }
+    K(K&& o) : k(o.k), uid(o.uid) { reg(); o.k = MOVED_FROM; }     // like std::string: the source no longer compares equal to what it was
+    static const int MOVED_FROM = -777777;
     K& operator=(const K&) = delete;
     ~K() { n_destroyed++; if (!g_live.erase(this)) vs_violation("VALUE-LIFETIME", "key object at %p destroyed twice / never constructed", (void*)this); }
 };
@@ -130,6 +131,7 @@ template <class C, bool MAP, class It> static void take(Rec& r, It it) {
     if ((long)r.seq.size() > TRAV_CAP) vs_violation("TRAVERSAL-CYCLE", "%s did not end after %ld elements", CODE[r.code], TRAV_CAP);
 }
 template <class C, bool MAP, class R> static void walk_range(C& c, Rec& r, R& rg, int depth) {
+    if (depth == 0 && rg.empty()) return;          // what parallel_for / parallel_reduce do with a Range: an empty() root range is not traversed at all
     if (depth < 2 && rg.is_divisible()) { R right(rg, tbb::split()); walk_range<C, MAP>(c, r, rg, depth + 1); walk_range<C, MAP>(c, r, right, depth + 1); return; }
     for (auto it = rg.begin(); it != rg.end(); ++it) take<C, MAP>(r, it);
 }
